@@ -30,6 +30,9 @@ FIRST = {
     # round 4
     "C01-4": "missed", "C02-4": "caught (replay)", "C03-4": "missed", "C04-4": "missed", "C05-4": "caught (replay)", "C06-4": "caught (replay)",
     "C07-4": "missed", "C08-3": "missed", "C09-4": "caught (replay)", "C10-4": "missed",
+    "C11-4": "caught (replay)", "C12-4": "missed", "C13-4": "broken correspondence, no-failing-input-found", "C14-4": "caught (replay)",
+    "C15-4": "missed", "C16-4": "missed", "C17-4": "missed", "C18-4": "broken correspondence, no-failing-input-found",
+    "C19-4": "translator failure + 17 theorems broken, no-failing-input-found", "C20-4": "caught (replay)",
 }
 
 
